@@ -17,10 +17,10 @@ def runSums {β} (base : Int) : List (List β) → List Int
   | [] => []
   | e :: es => (base + e.length) :: runSums (base + e.length) es
 
-theorem offsetsFrom_eq {β} (base : Int) (es : List (List β)) : offsetsFrom base es = base :: runSums base es := by
+theorem offsetsFrom_eq {β} (base : Int) (es : List (List β)) : offsetsFromI base es = base :: runSums base es := by
   induction es generalizing base with
   | nil => rfl
-  | cons e es ih => simp only [offsetsFrom, runSums, ih]
+  | cons e es ih => simp only [offsetsFromI, runSums, ih]
 
 theorem sumLen_append {β} (xs ys : List (List β)) : sumLen (xs ++ ys) = sumLen xs + sumLen ys := by
   induction xs with
